@@ -5,6 +5,7 @@ import shutil
 import time
 from concurrent.futures import ThreadPoolExecutor
 
+import common
 from common import (NCPU, HarnessError, build_dir, extract_block, log, parse_stats, repo_dir, repo_state, run_capture, save_replay, sim_dir,
                     tool_build, write_evidence)
 
@@ -67,9 +68,7 @@ def check(tier, seed):
     tool = tool_build()
     sd = sim_dir()
     js_dir = os.path.join(sd, "js")
-    work = os.path.join(build_dir(), "gc-work")
-    shutil.rmtree(work, ignore_errors=True)
-    os.makedirs(work)
+    work = common.private_work_dir(build_dir(), "gc-work")
 
     # ---- the model itself is validated first against the hand-annotated ground truth of the repository
     rc, out, err = run_capture(["node", os.path.join(js_dir, "validate_model.mjs"), os.path.join(repo_dir(), "feature_tests", "src", "lifetimes.rs")])
@@ -174,9 +173,7 @@ def replay(path):
     tool = tool_build()
     sd = sim_dir()
     js_dir = os.path.join(sd, "js")
-    work = os.path.join(build_dir(), "gc-replay")
-    shutil.rmtree(work, ignore_errors=True)
-    os.makedirs(work)
+    work = common.private_work_dir(build_dir(), "gc-replay")
     ready, rejected, _ = prepare_bridge(tool, js_dir, work, rep["seed"], rep["bridge"])
     dirs = dict(ready)
     if rep.get("abi") not in dirs:
